@@ -145,6 +145,14 @@ type c06obs struct {
 	Written      int        `json:"wr"`    // written after arming
 	NB           []byte     `json:"nb"`    // NETCONF: what Driver.read is holding when the RPC starts
 	Stale        [][]byte   `json:"stale"` // idle scenarios: the unsolicited bytes, as the reads delivered them
+	Hist         []c06hist  `json:"hist"`  // what the caller tried on the same driver object after the loss
+}
+
+// c06hist is one step of the history after the loss: openfail (Open while the device refuses the
+// connection), open (Open with a transport open that goes through), close, or an operation.
+type c06hist struct {
+	Act string `json:"a"`
+	Res c06res `json:"r"`
 }
 
 type c06env struct {
@@ -155,7 +163,8 @@ type c06env struct {
 	op    func() (string, error)
 	later []func() (string, error)
 	close func() error
-	unsol func(class int) []byte // idle scenarios: what the device says unasked (by content class)
+	unsol func(class int) []byte            // idle scenarios: what the device says unasked (by content class)
+	hops  map[string]func() (string, error) // operations available to the history after the loss
 }
 
 // The property quantifies over error VALUES ("persistent non-EOF error such as EIO / connection
@@ -383,6 +392,18 @@ func (s c06scen) build() *c06env {
 			}
 		}
 		e.later = []func() (string, error){prm, send}
+		e.hops = map[string]func() (string, error){"prompt": prm, "send": send, "readall": func() (string, error) {
+			var all []byte
+			for i := 0; i < 3; i++ {
+				b, err := d.Channel.ReadAll()
+				if err != nil {
+					return "", err
+				}
+				all = append(all, b...)
+				time.Sleep(300 * time.Microsecond)
+			}
+			return string(all), nil
+		}}
 	case strings.HasPrefix(s.base(), "n-"):
 		dev := sim.NewCLI()
 		dev.Mode = "exec"
@@ -440,6 +461,7 @@ func (s c06scen) build() *c06env {
 			return r.Result, nil
 		}
 		e.later = []func() (string, error){func() (string, error) { return d.GetPrompt() }, send}
+		e.hops = map[string]func() (string, error){"prompt": func() (string, error) { return d.GetPrompt() }, "send": send}
 	default: // NETCONF
 		v11 := strings.HasPrefix(s.base(), "nc11")
 		srv := sim.NewNCServer(true, v11)
@@ -471,6 +493,7 @@ func (s c06scen) build() *c06env {
 		}
 		e.op = rpc
 		e.later = []func() (string, error){rpc, rpc}
+		e.hops = map[string]func() (string, error){"rpc": rpc}
 		e.unsol = func(class int) []byte {
 			note := srv.Frame(sim.NCReply{Payload: []byte(`<notification xmlns="urn:ietf:params:xml:ns:netconf:notification:1.0"><eventTime>2026-01-01T00:00:00Z</eventTime><link-down><if>Gi0/1</if></link-down></notification>`)})
 			switch class {
@@ -664,6 +687,9 @@ func c06exec(s c06scen, kind string, k int) (o c06obs) {
 				}
 			}
 		}
+		if at, _ := e.lossy.Loss(); kind != "" && !o.Op.Hang && o.Op.Ident != "timeout" && (!at.IsZero() || o.Op.Ident != "nil") {
+			o.Hist = c06history(s, e, kind, k)
+		}
 	}
 	at, _ := e.lossy.Loss()
 	o.LossReported = !at.IsZero()
@@ -700,6 +726,116 @@ func c06exec(s c06scen, kind string, k int) (o c06obs) {
 		}
 	}
 	return o
+}
+
+// c06history: after the loss the caller keeps trying things on the same driver object, in an order
+// drawn from the case line: Open while the device refuses the connection, Open with a transport
+// open that goes through (the transport itself stays dead), Close, further operations.
+func c06history(s c06scen, e *c06env, kind string, k int) []c06hist {
+	h := uint64(len(kind))
+	for _, ch := range kind + s.Name {
+		h = h*131 + uint64(ch)
+	}
+	r := vlib.NewRng(s.VSeed*31 + uint64(k)*7 + h)
+	acts := []string{"openfail", "openfail", "open", "close"}
+	// a second Open while the first read goroutine is still alive (persistent read error: blocked
+	// handing it over; write error: reading) is API misuse (two read loops, C07's subject): there
+	// the pass-through Open is only tried after a Close
+	closedOnce := kind == "eof"
+	var ops []string
+	for name := range e.hops {
+		if kind == "werr" && name == "readall" {
+			continue // a write-only failure is invisible to (and irrelevant for) a pure reader
+		}
+		ops = append(ops, name)
+	}
+	sort.Strings(ops)
+	var out []c06hist
+	n := 5
+	for i := 0; i < n; i++ {
+		var act string
+		if i%2 == 0 && i < n-1 {
+			act = acts[r.Intn(len(acts))]
+			if act == "open" && !closedOnce {
+				act = "close"
+			}
+			if act == "close" {
+				closedOnce = true
+			}
+		} else {
+			act = ops[r.Intn(len(ops))] // every control action is followed by an operation
+		}
+		var res c06res
+		switch act {
+		case "openfail":
+			e.lossy.SetOpenFail(true)
+			res = c06call(e.lossy, func() (string, error) { return "", e.open() })
+			e.lossy.SetOpenFail(false)
+		case "open":
+			res = c06call(e.lossy, func() (string, error) { return "", e.open() })
+		case "close":
+			res = c06call(e.lossy, func() (string, error) { return "", e.close() })
+		default:
+			res = c06call(e.lossy, e.hops[act])
+		}
+		out = append(out, c06hist{Act: act, Res: res})
+		if res.Hang || res.Ident == "timeout" {
+			break
+		}
+	}
+	return out
+}
+
+// c06judgeHist: once the connection is lost every later operation on that driver object returns an
+// error, promptly — whatever Open / Close calls the caller makes in between (in these runs the
+// transport never comes back, so a re-Open that returns nil opens a connection that is lost at once).
+func c06judgeHist(c *ctx, caseLine string, s c06scen, kind string, hist []c06hist) bool {
+	res := c.res
+	var trail []string
+	for _, h := range hist {
+		trail = append(trail, h.Act+"="+h.Res.Ident)
+		tr := strings.Join(trail, " ")
+		r := h.Res
+		switch h.Act {
+		case "openfail", "open":
+			res.Count("history:" + h.Act + "->" + map[bool]string{true: "nil", false: "error"}[r.Ident == "nil"])
+			if r.Hang {
+				res.Fail("oracle", caseLine, "after the loss ("+kind+"): Open did not return; history: "+tr, "hang:history-open")
+				return true
+			}
+			if h.Act == "openfail" && r.Ident == "nil" {
+				res.Fail("oracle", caseLine, "Open returned nil although the transport refused the connection; history: "+tr, "history-open-success-on-refused-transport")
+				return true
+			}
+		case "close":
+			res.Count("history:close")
+			if r.Hang {
+				res.Fail("oracle", caseLine, "after the loss ("+kind+"): Close did not return; history: "+tr, "close-hang:history")
+				return true
+			}
+		default:
+			res.Count("history:op")
+			switch {
+			case r.Hang:
+				res.Fail("oracle", caseLine, "after the loss ("+kind+"): operation "+h.Act+" hung; history: "+tr, "hang:history-op")
+				return true
+			case r.Ident == "nil":
+				sig := "history-success:" + kind
+				if kind == "err" {
+					sig = "later-success:err" // the known stale-bytes-between-hand-overs mechanism
+				}
+				res.Fail("oracle", caseLine, fmt.Sprintf("the connection was lost (%s) and no Open has succeeded since, yet %s reported success (%q); history after the loss: %s", kind, h.Act, r.Result, tr), sig)
+				return true
+			case r.Ident == "timeout":
+				res.Fail("oracle", caseLine, fmt.Sprintf("after the loss (%s) %s waited out its timeout (%d ms) instead of failing promptly; history: %s", kind, h.Act, r.ElapsedUs/1000, tr), "history-waited-out-timeout:"+kind)
+				return true
+			case r.ElapsedUs > c06Prompt.Microseconds():
+				res.Fail("oracle", caseLine, fmt.Sprintf("after the loss (%s) %s took %d ms to fail; history: %s", kind, h.Act, r.ElapsedUs/1000, tr), "history-not-prompt:"+kind)
+				return true
+			}
+		}
+	}
+	return false
 }
 
 // ---------------------------------------------------------------------------------------------
@@ -920,7 +1056,7 @@ func c06child(f []string) {
 		o.Stream, o.Cuts, o.Writes, o.Pre = nil, nil, nil, nil
 		b, _ := json.Marshal(o)
 		fmt.Printf("C06R %d %s\n", k, b)
-		if o.Op.Hang || (len(o.Later) > 0 && o.Later[len(o.Later)-1].Hang) {
+		if o.Op.Hang || (len(o.Later) > 0 && o.Later[len(o.Later)-1].Hang) || (len(o.Hist) > 0 && o.Hist[len(o.Hist)-1].Res.Hang) {
 			os.Exit(7) // goroutines are stuck: do not run further cases in this process
 		}
 	}
@@ -944,6 +1080,11 @@ func c06looksBad(o c06obs) bool {
 	}
 	for _, l := range o.Later {
 		if l.Hang || l.Ident == "timeout" || l.SinceLoss > c06Prompt.Microseconds() {
+			return true
+		}
+	}
+	for _, h := range o.Hist {
+		if h.Res.Hang || h.Res.Ident == "timeout" {
 			return true
 		}
 	}
@@ -1021,6 +1162,11 @@ func c06spawn(c *ctx, j c06job) map[int]c06out {
 		werr := cmd.Wait()
 		if done >= len(todo) && werr == nil {
 			break
+		}
+		if done > 0 && done < len(todo) && !watchdog && werr != nil && strings.Contains(werr.Error(), "exit status 7") {
+			// the child reported a hang in its last case and left on purpose: go on with the rest
+			todo = todo[done:]
+			continue
 		}
 		// the child died or was killed: blame the case in flight
 		if done < len(todo) {
@@ -1441,6 +1587,10 @@ func c06judge(c *ctx, sw *c06sweep, out map[int]c06out, answer string) {
 		if bad {
 			continue
 		}
+		// ---- history after the loss: re-Open / Close / more operations on the same driver object
+		if c06judgeHist(c, caseLine, s, kind, o.obs.Hist) {
+			continue
+		}
 		// ---- correspondence: the implementation's outcome is one the model allows
 		okc := false
 		for _, x := range modelSet {
@@ -1588,6 +1738,9 @@ func c06judgeIdle(c *ctx, sw *c06sweep, out map[int]c06out, ans []string) {
 			if failed {
 				break
 			}
+		}
+		if !failed && c06judgeHist(c, caseLine, s, kind, o.obs.Hist) {
+			failed = true
 		}
 		if failed || len(modelSet) == 0 {
 			continue
